@@ -367,10 +367,29 @@ func generate(rng *rand.Rand, steps int, profile string) ([]string, []string, ma
 				continue
 			}
 			g.snapN++
-			if profile == "rebuildreal" && rng.Intn(2) == 0 {
+			// a rejoin with the old directory is synced only if the checkpoint recorded in that directory
+			// names a member of the source's chain (the controller records full disk names)
+			ckptOk := func() bool {
+				ck := ""
+				for _, f := range strings.Fields(g.im.Exec("meta")) {
+					if strings.HasPrefix(f, "ckpt=") {
+						ck = strings.TrimPrefix(f, "ckpt=")
+					}
+				}
+				if ck == "" {
+					return true
+				}
+				for _, c := range g.chain() {
+					if "volume-snap-"+c.name+".img" == ck {
+						return true
+					}
+				}
+				return false
+			}
+			if profile == "rebuildreal" && rng.Intn(2) == 0 && (len(g.chain()) > 0 || ckptOk()) {
 				// a replica leaves now and comes back later with its old directory: only what the source
 				// wrote in between has to be transferred (nothing is deleted or reclaimed in between)
-				if len(g.chain()) > 0 && rng.Intn(2) == 0 {
+				if len(g.chain()) > 0 && (rng.Intn(2) == 0 || !ckptOk()) {
 					ch := g.chain()
 					g.do("ckpt volume-snap-" + ch[rng.Intn(len(ch))].name + ".img") // as the controller records it
 				}
